@@ -5,7 +5,9 @@
 (*                                                                         *)
 (* A test case is a small program:                                         *)
 (*     [cd]  def P1 = BASE  def P2 = LINK(P1) ... def Pn = LINK(Pn-1)  [cd] *)
-(*     USE role (LINK(Pn), or BASE when n = 0)                             *)
+(*     USE role (LINK(Pn), or BASE when n = 0)    [cd  USE the same again]  *)
+(* (with two uses, use k designates the entry uk below the path, so that   *)
+(* both effects can be told apart).                                        *)
 (* A path expression is [RELATIVITY] FILE-NAME:                            *)
 (*     rel  one of the relativity options, "default" (none given),         *)
 (*          "relsym" (-rel Pk) or "ref" (FILE-NAME begins with @[Pk]@)     *)
@@ -29,6 +31,21 @@
 (* Locations are [root, comps] with root one of home acthome here abs act  *)
 (* tmp result ("here" = directory of the source file, "abs" = the absolute *)
 (* prefix the case uses).                                                  *)
+(*                                                                         *)
+(* The deviation AbsoluteSuffixWins (what the code does today, documented  *)
+(* by its author in doc/BUGS.rst) has three effects: RELATIVITY followed   *)
+(* by an absolute FILE-NAME is not refused; an absolute FILE-NAME written  *)
+(* directly in an instruction is not checked against what the argument     *)
+(* accepts; at resolution an absolute FILE-NAME replaces everything before *)
+(* it, while the value keeps claiming the relativity it was written with   *)
+(* when the absolute part comes from a string symbol (a literal one makes  *)
+(* the value absolute, and makes -rel SYMBOL forget its symbol).           *)
+(*                                                                         *)
+(* `cd` is not an argument that creates or modifies: the manual lists its  *)
+(* accepted relativities (the model requires the rest to be rejected) and  *)
+(* is silent about absolute paths (the model allows either); the current   *)
+(* directory can therefore leave the sandbox by `cd ABSOLUTE-PATH`, and    *)
+(* only so (CwdInSandbox).                                                 *)
 (***************************************************************************)
 EXTENDS Naturals, Sequences, FiniteSets, TLC
 
@@ -43,7 +60,8 @@ CONSTANTS MaxDepth,      \* longest chain of path-symbol definitions
           Phases,        \* phases explored
           RichPhases,    \* phases in which the large sets of shapes are explored
           DeepPhases,    \* phases in which chains of depth >= 2 are explored
-          CdPos,         \* positions of a context `cd`: 0 none, 1 before the definitions, 2 between definitions and use
+          CdPos,         \* positions of a context `cd`: 0 none, 1 before the definitions, 2 between definitions and use,
+                         \* 3 after the use, followed by a second use of the same path expression
           CdForms,       \* forms of the context `cd`: "tmp" (cd -rel-tmp c), "sub" (cd c)
           MayReject,     \* TRUE: where the property leaves a choice (accept or reject) both are explored as
                          \* behaviours; FALSE (random simulation): only "accept" is, the other is MayRejectOutcome
@@ -114,12 +132,12 @@ VARIABLES role, phase, depth, cdpos, cdform,    \* the family of the case (chose
           symtab,     \* values of the path symbols P1 .. (filled by validation, in order of definition)
           cwd,        \* the current directory (a location)
           outcome,    \* "-" until the case ends
-          resolved,   \* location the use instruction resolved its path to
+          uses,       \* per executed use instruction: [loc: the location its path resolved to,
+                      \*                                at: the directory that was current then]
           created,    \* locations created or modified by instructions
           nexec,      \* number of instructions executed
-          cwdAtDef, cwdAtUse     \* history: current directory when P1 was defined / when the use was executed
-vars == <<role, phase, depth, cdpos, cdform, prog, stage, pc, symtab, cwd, outcome, resolved, created, nexec,
-          cwdAtDef, cwdAtUse>>
+          cwdAtDef    \* history: current directory when P1 was defined
+vars == <<role, phase, depth, cdpos, cdform, prog, stage, pc, symtab, cwd, outcome, uses, created, nexec, cwdAtDef>>
 family == <<role, phase, depth, cdpos, cdform>>
 
 \* ---- values -----------------------------------------------------------------------------------
@@ -148,6 +166,9 @@ Loc(v, dir) == IF v.phys = "cd" THEN [root |-> dir.root, comps |-> dir.comps \o 
 \* ---- the case ---------------------------------------------------------------------------------
 Layout == (IF cdpos = 1 THEN <<"cd">> ELSE <<>>) \o [j \in 1..depth |-> "def"]
           \o (IF cdpos = 2 THEN <<"cd">> ELSE <<>>) \o <<"use">>
+          \o (IF cdpos = 3 THEN <<"cd", "use">> ELSE <<>>)
+\* with two uses, use k designates the entry uk below the path the expression denotes
+Leaf(k) == IF cdpos # 3 THEN <<>> ELSE IF k = 1 THEN <<"u1">> ELSE <<"u2">>
 NumDefs(p) == Cardinality({j \in 1..Len(p) : p[j].op = "def"})
 Slot == Layout[Len(prog) + 1]
 SinglePhase == Cardinality(PhasesOf(role)) = 1
@@ -158,9 +179,11 @@ CtxCdExpr == [rel |-> IF cdform = "tmp" THEN "tmp" ELSE "default", sym |-> 0, sf
 
 \* which expressions are explored (not a claim about the program: the bounds of the exploration)
 BaseOk(x, r) ==
-  /\ (x.rel = "here") => (r = "def" /\ ~SfxAbs(x.sfx))
+  /\ (x.rel = "here") => ~SfxAbs(x.sfx)          \* (-rel-here outside `def`: "only available when defining")
   /\ Bad(x) => (role \in WriteRoles \cup {"cd"})     \* RELATIVITY + absolute FILE-NAME: only where writing is at stake
-  /\ (cdpos # 0) => ((IF x.rel = "default" THEN Default(r) ELSE x.rel) = "cd" /\ ~SfxAbs(x.sfx))
+  /\ (cdpos # 0) => LET decl == IF x.rel = "default" THEN Default(r) ELSE x.rel IN
+                     /\ ~SfxAbs(x.sfx)
+                     /\ decl = "cd" \/ (cdpos = 3 /\ decl = "act")      \* (act: a control the cd must not affect)
 LinkOk(x) ==
   /\ (x.rel = "ref") => ~SfxAbs(x.sfx)
   /\ Bad(x) => (role \in WriteRoles \cup {"cd"})
@@ -169,15 +192,16 @@ Init ==
   /\ role \in Roles /\ phase \in (PhasesOf(role) \cap Phases) /\ depth \in 0..MaxDepth
   /\ (depth >= 2) => (phase \in DeepPhases \/ SinglePhase)
   /\ cdpos \in CdPos /\ (cdpos = 2 => depth >= 1)
+  /\ (cdpos = 3) => (role \notin {"cd", "actprog"} /\ (phase \in DeepPhases \/ SinglePhase))
   /\ cdform \in (IF cdpos = 0 THEN {"-"} ELSE CdForms)
   /\ prog = <<>> /\ stage = "build" /\ pc = 1 /\ symtab = <<>>
   /\ cwd = [root |-> "act", comps |-> <<>>]           \* "act directory: the current directory when [setup] begins"
-  /\ outcome = "-" /\ resolved = NoLoc /\ created = {} /\ nexec = 0
-  /\ cwdAtDef = NoLoc /\ cwdAtUse = NoLoc
+  /\ outcome = "-" /\ uses = <<>> /\ created = {} /\ nexec = 0
+  /\ cwdAtDef = NoLoc
 
 Frame == UNCHANGED family
 Extend(ins) == /\ prog' = Append(prog, ins)
-               /\ UNCHANGED <<stage, pc, symtab, cwd, outcome, resolved, created, nexec, cwdAtDef, cwdAtUse>>
+               /\ UNCHANGED <<stage, pc, symtab, cwd, outcome, uses, created, nexec, cwdAtDef>>
 
 AddCd ==
   /\ stage = "build" /\ Slot = "cd" /\ Frame
@@ -204,20 +228,30 @@ TextComps(p, x) ==
   ELSE LET j == CHOOSE j \in 1..Len(p) : p[j].op = "def" /\ NumDefs(SubSeq(p, 1, j)) = x.sym IN
        TextComps(p, p[j].x) \o SfxComps(x.sfx)
 
+HasUse == \E j \in 1..Len(prog) : prog[j].op = "use"
+Built  == Len(prog) + 1 = Len(Layout)          \* the instruction being added is the last one
+
 AddUse ==
-  /\ stage = "build" /\ Slot = "use" /\ Frame
+  /\ stage = "build" /\ Slot = "use" /\ ~HasUse /\ Frame
   /\ \E rel \in (IF depth = 0 THEN (Opts \cup {"default"}) ELSE {"relsym", "ref"}),
         s \in (IF depth = 0 THEN BaseSet ELSE LinkSet) :
        LET x == [rel |-> rel, sym |-> depth, sfx |-> s] IN
        /\ IF depth = 0 THEN BaseOk(x, role) ELSE LinkOk(x)
        /\ (role # "def") => TextComps(prog, x) # <<>>        \* the use designates something below a root
        /\ prog' = Append(prog, [op |-> "use", role |-> role, x |-> x])
+  /\ stage' = (IF Built THEN "parse" ELSE "build") /\ pc' = 1
+  /\ UNCHANGED <<symtab, cwd, outcome, uses, created, nexec, cwdAtDef>>
+
+\* the second use: the very same path expression again
+AddUseAgain ==
+  /\ stage = "build" /\ Slot = "use" /\ HasUse /\ Frame
+  /\ prog' = Append(prog, prog[CHOOSE j \in 1..Len(prog) : prog[j].op = "use"])
   /\ stage' = "parse" /\ pc' = 1
-  /\ UNCHANGED <<symtab, cwd, outcome, resolved, created, nexec, cwdAtDef, cwdAtUse>>
+  /\ UNCHANGED <<symtab, cwd, outcome, uses, created, nexec, cwdAtDef>>
 
 \* ---- parsing: syntax of every instruction, before anything else -------------------------------
 End(o) == /\ outcome' = o /\ stage' = "done"
-          /\ UNCHANGED <<prog, pc, symtab, cwd, resolved, created, nexec, cwdAtDef, cwdAtUse>>
+          /\ UNCHANGED <<prog, pc, symtab, cwd, uses, created, nexec, cwdAtDef>>
 NextInstr(st) == /\ IF pc < Len(prog) THEN pc' = pc + 1 /\ stage' = stage ELSE pc' = 1 /\ stage' = st
                  /\ UNCHANGED <<prog, outcome>>
 
@@ -233,7 +267,7 @@ ParseOk ==
         \/ Direct(i.x) \in Must(i.role, phase) \cup May(i.role, phase)
         \/ D4 /\ Direct(i.x) = "abs"                         \* deviation: an absolute FILE-NAME is not checked
   /\ NextInstr("validate")
-  /\ UNCHANGED <<symtab, cwd, resolved, created, nexec, cwdAtDef, cwdAtUse>>
+  /\ UNCHANGED <<symtab, cwd, uses, created, nexec, cwdAtDef>>
 
 ParseReject ==
   /\ stage = "parse" /\ Frame
@@ -261,7 +295,7 @@ ValidateOk ==
      /\ RefOf(i.x) # 0 => Kind(symtab[RefOf(i.x)].root) \in Must(i.role, phase) \cup May(i.role, phase)
      /\ symtab' = Define(i)
   /\ NextInstr("exec")
-  /\ UNCHANGED <<cwd, resolved, created, nexec, cwdAtDef, cwdAtUse>>
+  /\ UNCHANGED <<cwd, uses, created, nexec, cwdAtDef>>
 
 ValidateReject ==
   /\ stage = "validate" /\ Frame
@@ -289,23 +323,23 @@ Step == /\ nexec' = nexec + 1
 ExecDef ==
   /\ stage = "exec" /\ prog[pc].op = "def" /\ Frame
   /\ cwdAtDef' = IF cwdAtDef = NoLoc THEN cwd ELSE cwdAtDef
-  /\ Step /\ UNCHANGED <<cwd, resolved, created, cwdAtUse>>
+  /\ Step /\ UNCHANGED <<cwd, uses, created>>
 
 ExecCd ==
   /\ stage = "exec" /\ prog[pc].op = "cd" /\ Frame
   /\ cwd' = Loc(Eval(prog[pc].x, symtab, Default("cd")), cwd)
-  /\ Step /\ UNCHANGED <<resolved, created, cwdAtDef, cwdAtUse>>
+  /\ Step /\ UNCHANGED <<uses, created, cwdAtDef>>
 
 ExecUse ==
   /\ stage = "exec" /\ prog[pc].op = "use" /\ Frame
-  /\ LET l == Loc(Eval(prog[pc].x, symtab, Default(role)), cwd) IN
-     /\ resolved' = l
-     /\ cwdAtUse' = cwd
+  /\ LET b == Loc(Eval(prog[pc].x, symtab, Default(role)), cwd)      \* resolved NOW, against the current cwd
+         l == [root |-> b.root, comps |-> b.comps \o Leaf(Len(uses) + 1)] IN
+     /\ uses' = Append(uses, [loc |-> l, at |-> cwd])
      /\ created' = IF role \in {"file", "dir", "copydst"} THEN created \cup {l} ELSE created
      /\ cwd' = IF role = "cd" THEN l ELSE cwd
   /\ Step /\ UNCHANGED cwdAtDef
 
-Next == AddCd \/ AddBase \/ AddLink \/ AddUse \/ ParseOk \/ ParseReject \/ ValidateOk \/ ValidateReject
+Next == AddCd \/ AddBase \/ AddLink \/ AddUse \/ AddUseAgain \/ ParseOk \/ ParseReject \/ ValidateOk \/ ValidateReject
         \/ ExecDef \/ ExecCd \/ ExecUse
 Spec == Init /\ [][Next]_vars
 
@@ -323,8 +357,9 @@ UseRoot == UltRoot(Use.x, Default(role))
 UseKind == Kind(UseRoot)
 Rejected == outcome \in {"SYNTAX_ERROR", "VALIDATION_ERROR", "REJECTED"}
 IsPrefix(a, b) == Len(a) <= Len(b) /\ SubSeq(b, 1, Len(a)) = a
-\* where a relativity root is when the use instruction is executed
-RootLoc(r) == IF r = "cd" THEN cwdAtUse ELSE [root |-> r, comps |-> <<>>]
+\* where a relativity root is when use instruction k is executed
+RootLoc(r, k) == IF r = "cd" THEN uses[k].at ELSE [root |-> r, comps |-> <<>>]
+NumUses == IF cdpos = 3 THEN 2 ELSE 1
 
 \* ---- properties (checked with Deviations = {}) ---------------------------------------------------
 TypeOK ==
@@ -333,18 +368,32 @@ TypeOK ==
   /\ cwd.root \in SandboxRoots \cup {"abs", "home", "acthome", "here"}
   /\ Len(symtab) <= depth
 
-\* an accepted path resolves to its documented root joined with every suffix of the chain, in order
+\* an accepted path resolves to its documented root joined with every suffix of the chain, in order - at every use
 ResolvesUnderRoot ==
   (Done /\ outcome = "PASS") =>
-     /\ resolved.root = RootLoc(UseRoot).root
-     /\ resolved.comps = RootLoc(UseRoot).comps \o TextComps(prog, Use.x)
-     /\ IsPrefix(RootLoc(UseRoot).comps, resolved.comps)
-\* relative to the current directory means: current when the path is USED
+     /\ Len(uses) = NumUses
+     /\ \A k \in 1..Len(uses) :
+          /\ uses[k].loc.root = RootLoc(UseRoot, k).root
+          /\ uses[k].loc.comps = RootLoc(UseRoot, k).comps \o TextComps(prog, Use.x) \o Leaf(k)
+          /\ IsPrefix(RootLoc(UseRoot, k).comps, uses[k].loc.comps)
+\* relative to the current directory means: current when the path is USED - at each use anew
 RelCdAtUse ==
-  (Done /\ outcome = "PASS" /\ UseRoot = "cd") =>
-     /\ resolved = [root |-> cwdAtUse.root, comps |-> cwdAtUse.comps \o TextComps(prog, Use.x)]
-     /\ (depth >= 1 /\ cwdAtDef # cwdAtUse)
-           => resolved # [root |-> cwdAtDef.root, comps |-> cwdAtDef.comps \o TextComps(prog, Use.x)]
+  (outcome \in {"-", "PASS"} /\ UseRoot = "cd") =>
+     /\ \A k \in 1..Len(uses) :
+          /\ uses[k].loc = [root |-> uses[k].at.root,
+                            comps |-> uses[k].at.comps \o TextComps(prog, Use.x) \o Leaf(k)]
+          /\ (depth >= 1 /\ cwdAtDef # uses[k].at)
+                => uses[k].loc # [root |-> cwdAtDef.root,
+                                  comps |-> cwdAtDef.comps \o TextComps(prog, Use.x) \o Leaf(k)]
+     \* a cd between two uses moves what the second use designates; a path that is not relative to the current
+     \* directory is not moved (second conjunct below)
+     /\ (Len(uses) = 2) => /\ uses[1].at # uses[2].at
+                           /\ uses[2].loc # [root |-> uses[1].at.root,
+                                              comps |-> uses[1].at.comps \o TextComps(prog, Use.x) \o Leaf(2)]
+CdDoesNotMoveOtherRoots ==
+  (Len(uses) = 2 /\ UseRoot # "cd") =>
+     /\ uses[1].loc.root = uses[2].loc.root
+     /\ uses[1].loc.comps = TextComps(prog, Use.x) \o Leaf(1) /\ uses[2].loc.comps = TextComps(prog, Use.x) \o Leaf(2)
 \* whatever is created or modified lies in the sandbox ...
 WriteRolesNeverReachHome == \A l \in created : l.root \in SandboxRoots
 \* ... and the current directory leaves the sandbox only by a `cd` to an absolute path
@@ -367,7 +416,7 @@ RejectionNamed ==
      /\ (depth >= 1) => outcome = "VALIDATION_ERROR"
      /\ (depth = 0 /\ Use.x.rel = "default") => outcome = "REJECTED"
 \* ... and is found before anything is executed
-RejectedBeforeExecution == Rejected => (nexec = 0 /\ created = {} /\ cwd = [root |-> "act", comps |-> <<>>])
+RejectedBeforeExecution == Rejected => (nexec = 0 /\ created = {} /\ uses = <<>> /\ cwd = [root |-> "act", comps |-> <<>>])
 \* what the manual lists for an argument is accepted
 ListedIsAccepted ==
   (Done /\ UseKind \in Must(role, phase) /\ NoBad) => outcome = "PASS"
